@@ -396,11 +396,19 @@ def allclose(a, b, rtol=0, atol=0, **k):
 
 
 def install_arrays(it):
-    def prod(x):
-        out = 1
-        for v in (x.flat() if isinstance(x, NDArr) else x):
-            out *= v
-        return out
+    def prod(x, axis=None, dtype=None, **k):
+        if axis is None:
+            out = 1
+            for v in (x.flat() if isinstance(x, NDArr) else (NDArr(x).flat() if isinstance(x, (list, tuple)) and x and isinstance(x[0], (list, tuple, NDArr)) else x)):
+                out *= v
+            return out
+        if axis == 0:
+            parts = [p_ if isinstance(p_, NDArr) else NDArr(p_) for p_ in (x if not isinstance(x, NDArr) else [x[i] for i in range(x.shape[0])])]
+            out = parts[0]
+            for p_ in parts[1:]:
+                out = out * p_
+            return out
+        raise NotImplementedError("np.prod along an axis other than 0")
     it.overrides["np.prod"] = _PyCall(prod)
     it.overrides["np.allclose"] = _PyCall(allclose)
     it.overrides["np.isclose"] = _PyCall(allclose)
@@ -412,6 +420,48 @@ def install_arrays(it):
     it.overrides["np.ascontiguousarray"] = it.overrides["np.asarray"]
     it.overrides["np.dot"] = _PyCall(dot)
     it.overrides["np.reshape"] = _PyCall(lambda a, shape, **k: (a if isinstance(a, NDArr) else NDArr(a)).reshape(shape))
+    def as_arr(x):
+        return x if isinstance(x, NDArr) else NDArr(x)
+
+    def meshgrid(*xs, indexing="xy", **k):
+        """NumPy semantics: with the default "xy" indexing the first two axes are swapped (shape (n1, n0, n2, ...))"""
+        xs = [list(as_arr(x).flat()) for x in xs]
+        lens = [len(x) for x in xs]
+        shape = list(lens)
+        if indexing == "xy" and len(xs) >= 2:
+            shape[0], shape[1] = shape[1], shape[0]
+        out = []
+        for d, x in enumerate(xs):
+            ax = d
+            if indexing == "xy" and len(xs) >= 2 and d < 2:
+                ax = 1 - d
+            flat = [x[mi[ax]] for mi in _multi_indices(tuple(shape))]
+            out.append(NDArr(_rebuild(flat, tuple(shape)), tuple(shape)))
+        return out
+
+    def stack(arrs, axis=0, **k):
+        arrs = [as_arr(a) for a in arrs]
+        if any(a.ndim != 1 for a in arrs) or len({a.shape for a in arrs}) != 1:
+            raise NotImplementedError("np.stack of arrays that are not one-dimensional of equal length")
+        rows = [list(a.flat()) for a in arrs]
+        if axis in (0, -2):
+            return NDArr(rows, (len(rows), len(rows[0])))
+        if axis in (1, -1):
+            n = len(rows[0])
+            return NDArr([[r[i] for r in rows] for i in range(n)], (n, len(rows)))
+        raise NotImplementedError("np.stack axis")
+
+    def outer(a, b):
+        a, b = as_arr(a), as_arr(b)
+        fa, fb = list(a.flat()), list(b.flat())
+        shape = tuple(a.shape) + tuple(b.shape)
+        return NDArr(_rebuild([x * y for x in fa for y in fb], shape), shape)
+    it.overrides["np.meshgrid"] = _PyCall(meshgrid)
+    it.overrides["np.stack"] = _PyCall(stack)
+    it.overrides["np.column_stack"] = _PyCall(lambda arrs, **k: stack(arrs, axis=1))
+    it.overrides["np.multiply.outer"] = _PyCall(outer)
+    it.overrides["np.outer"] = _PyCall(lambda a, b: outer(as_arr(a).ravel(), as_arr(b).ravel()))
+    it.overrides["np.transpose"] = _PyCall(lambda a, *r, **k: as_arr(a).T)
     it.overrides["np.array2string"] = _PyCall(lambda x, **k: str(x))
     it.overrides["np.array_str"] = _PyCall(lambda x, **k: str(x))
     it.overrides["np.array_repr"] = _PyCall(lambda x, **k: repr(x))
